@@ -264,8 +264,13 @@ def _locate_droplets_in_mask_cylindrical_single(
     for index, slices in enumerate(object_slices, 1):
         if slices[0].start == 0:  # contains point on symmetry axis
             indices.append(index)
-            if slices[1].start == 0 and slices[1].stop > grid.shape[1]:
-                # the "droplet" extends the entire z-axis
+            if (
+                mask.shape[1] > grid.shape[1]
+                and slices[1].start == 0
+                and slices[1].stop == mask.shape[1]
+            ):
+                # the "droplet" extends the entire z-axis of the periodically padded
+                # image, i.e., it wraps around the periodic axis
                 raise _SpanningDropletSignal
         else:
             _logger.warning("Found object not located on symmetry axis")
@@ -334,8 +339,9 @@ def _locate_droplets_in_mask_cylindrical(mask: ScalarField) -> Emulsion:
             for droplet in candidates:
                 # correct for the additional padding of the array
                 droplet.position[2] -= grid.length
-                # check whether the droplet lies in the original box
-                if z_min <= droplet.position[2] <= z_max:
+                # check whether the droplet lies in the original box (whose upper boundary
+                # is excluded since it is identified with the lower boundary)
+                if z_min <= droplet.position[2] < z_max:
                     droplets.append(droplet)
 
             _logger.info("Kept %d central droplets.", len(droplets))
